@@ -14,7 +14,9 @@ macro_rules! hmod {
 
 hmod!(sim, "sim.rs");
 hmod!(msg, "msg.rs");
+hmod!(world, "world.rs");
 hmod!(c13_gateway, "c13_gateway.rs");
+hmod!(c19_reshard, "c19_reshard.rs");
 hmod!(c15_seqjoin, "c15_seqjoin.rs");
 hmod!(c17_parsers, "c17_parsers.rs");
 
@@ -26,6 +28,7 @@ fn registry() -> Vec<&'static dyn Scenario> {
     v.extend(c13_gateway::scenarios());
     v.extend(c15_seqjoin::scenarios());
     v.extend(c17_parsers::scenarios());
+    v.extend(c19_reshard::scenarios());
     v.extend(crate::protocol::context::verif_h3::scenarios());
     v
 }
